@@ -195,5 +195,35 @@ CHECKS["C11"].update(category="proof",
          "indexes is in C01 (readDaqmxIndex_encIdx). Lazy windows / chunk streams = slices of eager are checked by correspondence and oracle on generated DAQmx files.",
     technique="Lean 4 proof (row/column arithmetic by induction) + differential correspondence + byte-arithmetic oracle")
 
+CHECKS["C01"].update(
+    text="read_encode_single (whole-file theorem for one segment): for every well-formed single-segment encoding with standard (non-DAQmx, contiguous) indexes — any number "
+         "of objects, properties incl. repeated names, string and fixed-width channels, any number of chunks, either byte order, padding, any ToC flag combination — "
+         "readFile (encodeFile [s]) succeeds and its content (objects in order, types, canonical properties, values) equals denote [s]; with read_metadata_single and "
+         "read_data_single for the reader state and chunk stream. Layer theorems for arbitrary sizes and byte orders: integer/string codecs, value canonicalisation for all 16 "
+         "fixed-width types, property and raw-data-index (standard and DAQmx) round trips, lead-in round trip incl. all six ToC flags and the length-unknown marker, whole "
+         "contiguous chunks, interleaved column selection, and the metadata object loop. Multi-segment files: the metadata state machine refines the spec's inheritance "
+         "(C02 file_refines) and per-layer data theorems apply, but read (encode e) = denote e for several segments, interleaved and DAQmx data is NOT one theorem; it is "
+         "covered by the correspondence of the executable model with the real reader and by the spec oracle (denote) on every generated file.",
+    technique="Lean 4 proof (parser/printer round trips by induction; single-segment whole-file theorem) + executable model correspondence + spec oracle")
+CHECKS["C02"].update(category="proof",
+    text="meta_refines_spec / file_refines_spec: the reader's metadata state machine (applyHeader over _prev_segment_objects, object_metadata, the 'matches previous' reuse, "
+         "new-object-list flag, segments without metadata) refines the spec's resolveObjs/activeLists for every file of any length: same active object list per segment "
+         "(order, index description, has-data), same rejections (first segment without metadata, reuse of an undefined index, type change), under the invariant FileInv "
+         "proved from the empty state by induction; the one divergence (a bare 'matches previous' for a path seen without index is accepted by the code, rejected by the spec) "
+         "is stated exactly (meta_divergence) with a decidable guard NoBareReuse; readOneObject_factor/readSegmentObjects_eq tie the pure machine to the model's byte-level "
+         "loop; explicit_same_active / denote_explicit: an encoding and its explicit normal form have the same active lists and the same meaning; existingIndex_spec. The "
+         "model is tied to the real reader by correspondence on every generated encoding incl. the per-segment object lists; the oracle compares the real read of an "
+         "encoding with the real read of its explicit normal form.",
+    technique="Lean 4 proof (refinement of the metadata state machine to the spec, invariant by induction over segments) + executable model correspondence + normal-form oracle")
+CHECKS["C10"].update(category="proof",
+    text="defragment_eq / defragSegs_structure / each_channel_once / source_channel_written: the defragment model is the writer session over root, then per group the group "
+         "followed by one segment per channel; every source channel is written exactly once, the writer never rejects (writer_never_rejects); channel_fixed_width / "
+         "channel_string / channel_timestamp (+ _reads_back): the values written are the values read from the source, serialised so that the reader primitives return them; "
+         "rewrittenType_preserves (only the unit-carrying float codes 25/26 become 9/10); prop_value_preserved with per-type statements, incl. the exact float32 -> float64 "
+         "widening (f32ToF64_value, injective); defrag_valid: the copy is accepted by the strict structural parser with the expected paths and segment count. End-to-end "
+         "readFile (defragment f) = readFile f as one theorem only on the demo; in general it is the byte-for-byte correspondence of the model with the real "
+         "TdmsWriter.defragment plus the real source-vs-copy oracle.",
+    technique="Lean 4 proof (structure of the defragmented session, value/property preservation incl. float widening) + byte-equality correspondence + content oracle")
+
 NOTES = ("Properties move from not_applicable to checks as their model, correspondence and theorems are built; a check is claimed at `proof` only when its "
          "headline theorems are registered in lean/obligations.json. See DESIGN.md.")
